@@ -310,8 +310,12 @@ func c02flush(p *Program, r *Report, rule string) {
 			if pi < hi {
 				return "PAYLOAD-BEFORE-HEADER"
 			}
-			if pi >= 0 && argKey(pa.Events[pi], 1) != "param:p" {
-				return "PAYLOAD=" + argKey(pa.Events[pi], 1)
+			if pi >= 0 {
+				// the payload is the last argument (parameters handed down in front of it do not matter)
+				pe := pa.Events[pi]
+				if last := len(pe.Args) - 1; last < 1 || argKey(pe, last) != "param:p" {
+					return "PAYLOAD=" + argKey(pe, last)
+				}
 			}
 			if fi >= 0 && fi < pi {
 				return "FLUSH-BEFORE-PAYLOAD"
